@@ -26,6 +26,8 @@ def register(db):
     FOREIGN = f"(self.topics is not None and nonempty(self.topics) and {HEAD}.key.topic not in self.topics)"
     db.contract(
         fn=C + "__consume_normal", serves=["C11", "C12", "C15", "C05", "C01"], clock=["now"],
+        covers={"delivered": "result is not None", "rotated": f"result is None and len({Q}.simple) == len(old({Q}.simple)) and len(old({Q}.simple)) >= 2",
+                "expired": f"result is None and len({Q}.dead) == len(old({Q}.dead)) + 1"},
         requires=[TTL_OK],
         returns="Optional[sym[InMemMessage]]",
         ensures={
@@ -74,6 +76,7 @@ def register(db):
     # ---- finish(): return what this consumer holds
     db.contract(
         fn=C + "finish", serves=["C14", "C03", "C01"], ghost_init={"mine": "set[InMemMessage]"},
+        covers={"something_returned": f"len({Q}.simple) > len(old({Q}.simple))"},
         requires=[f"forall(m, 'InMemMessage', implies(m in ghost.mine, m in {Q}.processing))"],
         ensures={
             "nothing_of_mine_stays_held": f"forall(m, 'InMemMessage', implies(m in ghost.mine, m not in {Q}.processing))",
@@ -166,6 +169,7 @@ def register(db):
     NO_LIMBO = f"local('msg', None) is None or local('msg', None) in {Q}.processing"
     db.contract(
         fn=C + "consume", serves=["C14", "C01", "C03", "C05"], setup=dispatch_table, cancel_at_yield=True,
+        covers={"normal_delivery": "self.category == MessageCategory.NORMAL", "dead_delivery": "self.category == MessageCategory.DEAD"},
         requires=[TTL_OK, NONEMPTY_LISTS],
         fresh={"got": ("sym[InMemMessage]", "local('msg', None)")},
         returns="tuple[RoutingKey, str, Parameters]",
@@ -189,3 +193,62 @@ def register(db):
         },
         modifies=[f"{Q}.simple", f"{Q}.dead", f"{Q}.delayed", f"{Q}.processing", "self._paused._locked"],
     )
+
+
+# ---------------------------------------------------------------------------------------------------------------
+# C14 / C01 under interference (see contracts/c01_inmemory.py, single_copy): the consumer side of the invariant
+def finalize(db):
+    from contracts.c01_inmemory import single_copy
+    from pyvc.spec import Raises as _R
+    inv = single_copy(Q)
+    NONEMPTY_LISTS = f"forall(t, 'datetime', implies(t in {Q}.delayed, len({Q}.delayed[t]) >= 1))"
+    shared = [f"{Q}.simple", f"{Q}.processing", f"{Q}.dead", f"{Q}.delayed"]
+    named = {f"single_copy:{k}": v for k, v in inv.items()}
+
+    # the delayed inspection says exactly what it removed (needed to carry the invariant through the call)
+    cd = db.contracts[C + "__consume_delayed"]
+    D, D0 = f"{Q}.delayed", f"old({Q}.delayed)"
+    cd.fresh = {"slot": ("datetime", "local('soonest', None)")}
+    cd.ensures = dict(cd.ensures)
+    cd.ensures["taken_from_its_slot"] = (
+        f"implies(nonempty_map({D0}), slot in {D0} and result == at({D0}[slot], 0)"
+        f" and ((slot in {D}) == (len({D0}[slot]) > 1))"
+        f" and implies(slot in {D}, {D}[slot] == {D0}[slot][1:len({D0}[slot])])"
+        f" and forall(T, 'datetime', implies(T != slot, ((T in {D}) == (T in {D0})) and implies(T in {D}, {D}[T] == {D0}[T]))))")
+
+    # __update_delayed (bounded stand-in only): moving due entries keeps every message in exactly one place
+    cu = db.contracts[C + "__update_delayed"]
+    cu.ensures = dict(cu.ensures)
+    pre = " and ".join(f"({v})" for v in single_copy(Q, old=True).values())
+    for k, v in inv.items():
+        cu.ensures[f"single_copy_kept:{k}"] = f"implies({pre}, {v})"
+
+    cf = db.contracts[C + "finish"]
+    cf.variants = {
+        "sequential": {},
+        "interference": {"__override__": dict(
+            serves=["C14"], seq_lemmas=True, requires=list(inv.values()), ghost_init={}, covers={},
+            ensures=dict(named), yield_inv=dict(named), shared=shared, rely=list(inv.values()), cancel_at_yield=True,
+            modifies=shared + ["self._started"],
+            raises=[_R("CancelledError", mode="may", ensures=dict(named), modifies=shared + ["self._started"])],
+            loops={0: LoopInv(header="while self._queue.processing", invariant=dict(inv),
+                              modifies={f"{Q}.processing": None, f"{Q}.simple": None})})},
+    }
+
+    cc = db.contracts[C + "consume"]
+    TTL = TTL_OK
+    side = [TTL, NONEMPTY_LISTS]
+    cc.variants = {
+        "sequential": {},
+        "interference": {"__override__": dict(
+            serves=["C14"], seq_lemmas=True, requires=side + list(inv.values()), fresh={}, covers={},
+            ensures=dict(named), yield_inv=dict(named), shared=shared, rely=side + list(inv.values()), cancel_at_yield=True,
+            modifies=shared + ["self._paused._locked"],
+            raises=[_R("RuntimeError", mode="iff", when="not self._started", ensures=dict(named), modifies=shared),
+                    _R("CancelledError", mode="may", ensures=dict(named), modifies=shared + ["self._paused._locked"])],
+            loops={0: LoopInv(header="while self._paused.locked()", invariant={"started": "self._started", **inv, "ttl": TTL, "lists": NONEMPTY_LISTS},
+                              modifies={"self._paused._locked": None}),
+                   1: LoopInv(header="while (msg := _consume_fn()) is None", invariant={"ttl": TTL, "lists": NONEMPTY_LISTS, **inv},
+                              modifies={f"{Q}.simple": None, f"{Q}.dead": None, f"{Q}.delayed": None, f"{Q}.processing": None,
+                                        "counter": "float", "msg": "Optional[sym[InMemMessage]]"})})},
+    }
